@@ -1,8 +1,10 @@
 # C09 - schema datatypes: lexical / value space / canonical forms
 CLAIMS = {
  'decimal': 'XMLBigDecimal::parseDecimal (both overloads) on every string of <= N units: accepted iff xs:decimal lexical space after trimming, exact sign / digit string / totalDigits / fractDigits, memory safe',
+ 'deccmp*': 'XMLBigDecimal constructor / setDecimalValue / compareValues on every pair of accepted literals of <= N units: the result is the order of the two rational VALUES (equal values compare equal whatever their spelling, antisymmetric), also after re-assigning the left operand',
  'wsfacet': 'XMLString::replaceWS/collapseWS/removeWS/isWSReplaced/isWSCollapsed on every string of <= N units: exact whiteSpace-facet normalisation, predicates exact on fixed points, idempotent, memory safe',
  'dtparse_*': 'XMLDateTime::parseDate / parseYearMonth / parseYear / parseMonthDay / parseDay / parseMonth on every zero-terminated buffer of <= N units (arbitrary units behind the terminator): memory safe; for non-negative years accepted iff in the lexical space of the type with valid month/day/time zone',
+ 'durcmp': 'XMLDateTime::compare(d1, d2, strict) (addDuration / compareOrder / compareResult) on every pair of non-negative durations in field form (years <= 1, months <= 14, days <= MAXD, hours <= 30, minutes/seconds <= 70): the verdict is the partial order of XML Schema Part 2 3.2.6.2 over the four reference dateTimes (less / equal / greater when all four agree, indeterminate when they disagree)',
  'dt_normalize': 'XMLDateTime::normalize for every valid timezoned instant: fields equal the loop-free reference (same instant in UTC), in range, marked UTC',
  'hexbin': 'HexBin::isArrayByteHex/getDataLength/decodeToXMLByte/getCanonicalRepresentation on every string of <= N units: accepted iff XSD lexical space, exact decode, canonical = upper case, idempotent, memory safe',
  'base64': 'Base64::decodeToXMLByte/getDataLength/getCanonicalRepresentation/encode (Conf_Schema) on every string of <= N units: accepted iff XSD E2-54 grammar, exact decode, encode(decode) canonical, memory safe',
@@ -18,6 +20,10 @@ HARNESSES = [
       defs={'quick': {'N': 5}, 'thorough': {'N': 8}}, unwind='N+3'),
  dict(name='decimal', entry='harness_decimal', srcs=['C09/decimal.cpp'], tus=['util/XMLBigDecimal.cpp'] + COMMON, const_tables=[T10],
       defs={'quick': {'N': 4}, 'thorough': {'N': 6}}, unwind='N+3', unwind_gentle=True, unwind_cap=40, timeout={'quick': 900, 'thorough': 2400}, mem_gb=16),
+ dict(name='deccmp', entry='harness_deccmp', srcs=['C09/deccmp.cpp'], tus=['util/XMLBigDecimal.cpp', 'util/XMLNumber.cpp'] + COMMON, const_tables=[T10],
+      defs={'quick': {'N': 3, 'HISTORY': 0}, 'thorough': {'N': 4, 'HISTORY': 0}}, unwind='N+3', unwind_gentle=True, unwind_cap=40, timeout={'quick': 900, 'thorough': 2400}, mem_gb=16),
+ dict(name='deccmp_reassign', entry='harness_deccmp', srcs=['C09/deccmp.cpp'], tus=['util/XMLBigDecimal.cpp', 'util/XMLNumber.cpp'] + COMMON, const_tables=[T10],
+      defs={'quick': {'N': 3, 'HISTORY': 1}, 'thorough': {'N': 4, 'HISTORY': 1}}, unwind='N+3', unwind_gentle=True, unwind_cap=40, timeout={'quick': 900, 'thorough': 2400}, mem_gb=16),
  dict(name='wsfacet', entry='harness_wsfacet', srcs=['C09/wsfacet.cpp'], tus=['util/XMLString.cpp'],
       defs={'quick': {'N': 5}, 'thorough': {'N': 7}}, unwind='N+3', unwind_gentle=True, unwind_cap=40, timeout={'quick': 900, 'thorough': 2400}),
  ] + [
@@ -25,9 +31,11 @@ HARNESSES = [
       defs={'quick': {'N': nq, 'OP': op}, 'thorough': {'N': nt, 'OP': op}}, unwind='N+9', unwind_gentle=True, unwind_cap=48, timeout={'quick': 1200, 'thorough': 3000}, mem_gb=20)
  for op, nm, nq, nt in ((0, 'date', 12, 13), (1, 'gYearMonth', 9, 13), (2, 'gYear', 11, 12), (3, 'gMonthDay', 8, 13), (4, 'gDay', 6, 11), (5, 'gMonth', 7, 12))
  ] + [
+ dict(name='durcmp', entry='harness_durcmp', srcs=['C09/durcmp.cpp'], tus=['util/XMLDateTime.cpp', 'util/XMLNumber.cpp'], cbmc_flags=['--sat-solver', 'cadical'],
+      defs={'quick': {'MAXY': 0, 'MAXMO': 3, 'MAXD': 63, 'MAXH': 0, 'MAXMS': 0}, 'thorough': {'MAXY': 0, 'MAXMO': 5, 'MAXD': 63, 'MAXH': 24, 'MAXMS': 0}}, unwind={'quick': 10, 'thorough': 10}, timeout={'quick': 1200, 'thorough': 3000}, mem_gb=16),
  dict(name='dt_normalize', entry='harness_dt_normalize', srcs=['C09/datetime.cpp'], tus=['util/XMLDateTime.cpp'], unwind=4, timeout={'quick': 600, 'thorough': 1700}),
 ]
 LEVEL_TEXT = ('Bounded model checking of the real datatype kernels against references written from XML Schema Part 2: for ALL strings up to the stated length '
-              '(full 16-bit code units, so out-of-range characters and embedded separators are included) acceptance equals lexical-space membership, decoded values and canonical forms are exact.')
-LEVEL_NOTE = ('Bounds per harness in evidence. Not covered: float/double (floating point declined), durations, list/union validators, facet inheritance through DatatypeValidatorFactory, XSValue mirror. '
+              '(full 16-bit code units, so out-of-range characters and embedded separators are included) acceptance equals lexical-space membership, decoded values and canonical forms are exact; the ORDER of xs:decimal equals exact rational comparison for every pair of literals, and the partial order of xs:duration equals the four-reference-dateTime definition for every pair of bounded durations.')
+LEVEL_NOTE = ('Bounds per harness in evidence. Not covered: float/double (floating point declined), negative durations, fractional seconds and the duration lexical scanner, list/union validators, facet inheritance through DatatypeValidatorFactory, XSValue mirror. '
               'Cuts: XMLException message loading, XMemory new/delete -> malloc. Trusted: clang-14, ir2c, CBMC, harness references.')
